@@ -14,7 +14,7 @@ use serde_json::json;
 pub const KINDS: [Kind; 6] = [Kind::Ema, Kind::Tr, Kind::Atr, Kind::Macd, Kind::Kc, Kind::Ce];
 pub const MULTS: [f64; 6] = [0.0, 0.5, 2.0, 3.0, 1e3, -1.0];
 
-pub const RULE: &str = "Seeded scalar streams (any sign, RAND and band REGIME families) and valid OHLCV bar streams (6 styles + tiled AMZN) for EMA/TR/ATR/MACD/KC/CE with periods incl. 1, equal and inverted fast/slow, up to 1024, multipliers {0,0.5,2,3,1e3,-1}; every output component judged at every step against a double-double evaluation of the documented recursion over the whole history; plus long runs of 1.1*10^6 (quick) / 2.2*10^6 (thorough) inputs judged on the first 3000 steps, every 997th and the last; plus every bar/scalar sequence up to a depth bound over a small alphabet for periods 1..=4 (exhaustive). Non-trivial: stream longer than every period with >= 2 distinct inputs; distinct by hash of (indicator, params, stream head) or by construction (enumeration).";
+pub const RULE: &str = "Seeded scalar streams (any sign, RAND and band REGIME families) and valid OHLCV bar streams (6 styles + tiled AMZN) for EMA/TR/ATR/MACD/KC/CE with periods incl. 1, equal and inverted fast/slow, up to 1024, multipliers {0,0.5,2,3,1e3,-1}, incl. scalar streams of magnitude 1e100..1e150, 1e-150..1e-100 and one-signed streams in [6.5e307, 8.5e307] (just below overflow; multipliers <= 3 there); every output component judged at every step against a double-double evaluation of the documented recursion over the whole history; plus long runs of 1.1*10^6 (quick) / 2.2*10^6 (thorough) inputs judged on the first 3000 steps, every 997th and the last; plus every bar/scalar sequence up to a depth bound over a small alphabet for periods 1..=4 (exhaustive). Non-trivial: stream longer than every period with >= 2 distinct inputs; distinct by hash of (indicator, params, stream head) or by construction (enumeration).";
 
 fn judge(p: &Params, out: &Out, r: &RefOut, js: &mut Judgements) -> usize {
     ema_family_judgements(p, out, r, js);
@@ -76,7 +76,16 @@ fn run_scalar(ctx: &Ctx) -> Report {
     par_run(jobs, ctx.threads, move |idx, rep| {
         let mut rng = Rng::derive(seed, 0xC02, *idx as u64);
         let len = rng.range(50, maxlen);
-        let xs: Vec<f64> = if idx % 16 == 14 {
+        let near_max = idx % 16 == 6;
+        let xs: Vec<f64> = if near_max {
+            // "every finite stream" reaches up to f64::MAX. One-signed values in [6.5e307, 8.5e307]: every
+            // quantity the documented formulas form from them (|x - previous x| <= 2e307, convex combinations,
+            // average +- 3*ATR <= 1.45e308) is representable, so a correct implementation stays finite; one
+            // that sums or scales inputs on the way (x+x+x, 100*x) overflows
+            rep.count("scalar.streams_near_f64_max");
+            let sign = if rng.chance(0.5) { -1.0 } else { 1.0 };
+            (0..len.min(800)).map(|i| if i % 7 == 3 { sign * 6.5e307 } else { sign * (6.5e307 + 2e307 * rng.f()) }).collect()
+        } else if idx % 16 == 14 {
             // "every finite stream": magnitudes far outside the usual price range (kept below 1e150 so that
             // multiplier * ATR cannot overflow in a correct implementation either)
             rep.count("scalar.streams_with_huge_or_tiny_magnitudes");
@@ -91,7 +100,10 @@ fn run_scalar(ctx: &Ctx) -> Report {
         };
         let inputs: Vec<In> = xs.iter().map(|x| In::S(*x)).collect();
         for kind in [Kind::Ema, Kind::Tr, Kind::Atr, Kind::Macd, Kind::Kc] {
-            let p = params_for(kind, &mut rng, 1024);
+            let mut p = params_for(kind, &mut rng, 1024);
+            if near_max && p.k.abs() > 3.0 {
+                p.k = 3.0;
+            }
             let st = run_stream(rep, "C02", "c02", &p, &inputs, usize::MAX, 1, &judge);
             rep.count("scalar.streams");
             if st.steps > p.max_period() {
@@ -320,7 +332,7 @@ pub fn run(ctx: &Ctx) -> Report {
         rep.merge(run_enum(ctx));
     }
     if ctx.only.is_none() {
-        for key in ["tr.first_bar", "tr.arm.high_minus_low", "tr.arm.high_vs_prev_close", "tr.arm.low_vs_prev_close", "macd.fast_eq_slow", "macd.fast_gt_slow", "period_1.alpha_is_1", "period_ge_512", "enum.bar_sequences", "enum.scalar_sequences", "soak.long_streams"] {
+        for key in ["tr.first_bar", "tr.arm.high_minus_low", "tr.arm.high_vs_prev_close", "tr.arm.low_vs_prev_close", "macd.fast_eq_slow", "macd.fast_gt_slow", "period_1.alpha_is_1", "period_ge_512", "scalar.streams_near_f64_max", "enum.bar_sequences", "enum.scalar_sequences", "soak.long_streams"] {
             if rep.counters.get(key).copied().unwrap_or(0) == 0 {
                 rep.inconclusive.push(format!("coverage floor missed: {} = 0", key));
             }
